@@ -343,3 +343,50 @@ contract(FB, "RuleDBBase.get_specification_rules", props=["C05", "C02"], aliases
          modifies=_NODE_MODS + ["all:Obj('SpecificationRuleExtractor')"])
 contract(FTS, "Node.__len__", props=["C05"], verify=False, trusted_reason="number of nodes of a proof tree (recursive structure)",
          params={"self": _Node}, returns=Int, ensures=["result >= 1"], modifies=[])
+
+# ------------------------------------------------------------------ C05: prune -- what holds when it returns
+# (soundness of the pruning: the result is closed, a sub-dictionary of the input; that it is the GREATEST such
+# sub-dictionary is checked by the bounded stand-in)
+_CLOSED = ("forall(lambda k, r=Seq(Int): implies(k in {d} and r in {d}[k], "
+           "forall(lambda j: implies(0 <= j and j < len(r), r[j] in {d}))))")
+_DISTINCT_SETS = "forall(lambda k, l: implies(k in rdict and l in rdict and k != l, not same(rdict[k], rdict[l])))"
+_SHRINK = ["forall(lambda k: implies(k in rdict, at('loop0', k in rdict)))",
+           "forall(lambda k, r=Seq(Int): implies(k in rdict and r in rdict[k], at('loop0', r in rdict[k])))",
+           "forall(lambda k: implies(k in rdict, same(rdict[k], at('loop0', rdict[k]))))"]
+# nothing changed since the start of the current pass (label iter0 = head of the current while iteration)
+_SAME_PASS = ("(forall(lambda k: (k in rdict) == at('iter0', k in rdict)) and "
+              "forall(lambda k, r=Seq(Int): implies(k in rdict, (r in rdict[k]) == at('iter0', r in rdict[k]))))")
+_RC0 = "forall(lambda q: implies(0 <= q and q < len({r}), at('iter0', {r}[q] in rdict)))"     # closed w.r.t. the pass start
+_ACC1 = ("implies(not changed, forall(lambda j, r=Seq(Int): implies(0 <= j and j < _i1 and at('iter0', r in rdict[_keys1[j]]), "
+         + _RC0.format(r="r") + ")))")
+contract(FT, "prune#body", source="prune", props=["C05"], aliases=AL,
+         params={"rdict": RulesDict},
+         requires=[_DISTINCT_SETS],
+         ensures=[_CLOSED.format(d="rdict"),
+                  "forall(lambda k: implies(k in rdict, old(k in rdict)))",
+                  "forall(lambda k, r=Seq(Int): implies(k in rdict and r in rdict[k], old(r in rdict[k])))"],
+         loops={
+             0: dict(invariant=[_DISTINCT_SETS, "implies(not changed, " + _CLOSED.format(d="rdict") + ")"] + _SHRINK,
+                     modifies=["*rdict", "all:Set(Seq(Int))"]),
+             # pass over the snapshot of the items: while nothing changed, the keys done so far have only closed rules
+             1: dict(ghost_end=["assert implies(not changed, forall(lambda r=Seq(Int): implies(at('iter0', r in rdict[k]), "
+                                + _RC0.format(r="r") + ")))"],
+                     invariant=[_DISTINCT_SETS] + _SHRINK + [
+                 # keys of the snapshot that were not visited yet are still present
+                 "forall(lambda j: implies(_i1 <= j and j < _n1, _keys1[j] in rdict))",
+                 "implies(not changed, " + _SAME_PASS + ")", _ACC1],
+                     modifies=["*rdict", "all:Set(Seq(Int))"]),
+             # pass over the snapshot of one rule set
+             2: dict(ghost_end=["assert implies(not changed, " + _RC0.format(r="rule") + ")"],
+                     invariant=[_DISTINCT_SETS] + _SHRINK + [
+                 "implies(at('loop2', changed), changed)",
+                 "forall(lambda j: implies(_i1 < j and j < _n1, _keys1[j] in rdict))",
+                 # the key is still there with this very set, unless the set ran empty (then the key was deleted)
+                 "(k in rdict and same(rdict[k], rule_set)) or len(rule_set) == 0",
+                 # rules of the snapshot not looked at yet are still in the set
+                 "forall(lambda j: implies(_i2 <= j and j < _n2, _keys2[j] in rule_set))",
+                 "implies(not changed, " + _SAME_PASS + ")", _ACC1,
+                 "implies(not changed, forall(lambda j: implies(0 <= j and j < _i2, " + _RC0.format(r="_keys2[j]") + ")))"],
+                     modifies=["*rdict", "all:Set(Seq(Int))"])},
+         modifies=["*rdict", "all:Set(Seq(Int))"],
+         notes="on return every surviving rule has all its children among the surviving keys; only removals happened")
